@@ -168,6 +168,11 @@ func c02Units(tier string) []Unit {
 	// key changes instance as the constructors are built one after the other)
 	add("as-overlaps", h.Config{}, nil, prefixFork, alpha{scopes: []int{0, 1, 2}, ctors: []*uFunc{kAacw, kAccw}, export: true,
 		invokes: []*uFunc{qI, qII, qC}}, 6, explore.Budget{Provides: 2, Invokes: 4, Rejected: 1})
+	// a constructor provided As an interface next to another constructor of
+	// its concrete type (same scope, or exported into it): the concrete key
+	// keeps the one instance it had, whichever is demanded in between
+	add("as-next-to-concrete", h.Config{}, nil, prefixChild, alpha{scopes: []int{0, 1}, ctors: []*uFunc{kAasI, pA, kAnAsI, pAn}, export: true,
+		invokes: []*uFunc{iA, qI, qAn, qIn}}, 5, explore.Budget{Provides: 2, Invokes: 3, Rejected: 0})
 	// a child created after its parent built a key, then shadowing that key with
 	// a constructor that has a second result: one instance per (scope, key)
 	add("late-scope-shadowing", h.Config{}, nil, nil, alpha{scopes: []int{0, 1}, ctors: []*uFunc{pA, pABo}, invokes: []*uFunc{iA, iB}, scopeOps: []int{0}},
